@@ -1,3 +1,4 @@
+import Gtree.Lemmas.SourceRefines
 import Gtree.Lemmas.Validate
 import Gtree.Props.C05
 import Gtree.Lemmas.Confined
@@ -209,4 +210,13 @@ theorem C07_simple_is_ops_in_order (target : Bytes) (exts : List Bytes) (vs : Li
     mkNodes target exts fs vs = runOps fs (vs.flatMap (opsOf target exts)) :=
   mkNodes_eq_runOps target exts vs fs
 
+end Gtree
+
+namespace Gtree
+/-- Tie to the source: the validation the C07 theorems are about is `Node.validatePath` (node.go, translated on this
+    run) — the name must be one path element (not empty, not "." or "..", no "/"), then the node's path must be valid
+    for io/fs; the first failure is the error and carries the offending name / path. -/
+theorem C07_validation_is_the_source (v : Visit) (hroot : v.level = 1 → v.path = v.name) :
+    Src.Node.validatePath (visitNode v) = (validateVisit v).map verrSrc :=
+  validatePath_src v hroot
 end Gtree
